@@ -31,6 +31,7 @@ type Fault struct {
 	K     int    // 1-based position in the scenario's fault list: decides the reply code
 	Class string // t4, p5, drop, stall, garbage
 	Shape string // lead, later, none: where an enhanced status code appears in the text
+	Rot   int    // rotation of the reply-code table (cfg.cs of the model)
 }
 
 // AuthStep scripts one server message of an AUTH exchange.
@@ -140,9 +141,13 @@ func OkCode(v string) int {
 
 // ReplyFor computes code, text and leading enhanced status code of a faulty reply.
 func ReplyFor(f Fault) (int, string, string) {
-	code, d := 450+f.K, "4"
+	off := (f.Rot + 33*(f.K-1)) % 100
+	code, d := 400+off, "4"
 	if f.Class == "p5" {
-		code, d = 550+f.K, "5"
+		code, d = 500+off, "5"
+	}
+	if f.Class == "x3" {
+		return 330 + f.K, "intermediate reply by script", ""
 	}
 	esc := fmt.Sprintf("%s.5.%d", d, f.K)
 	switch f.Shape {
